@@ -310,7 +310,7 @@ def generate(tier, rng):
         f, ok = typed_sequence(ops, rng, flavour, unary_p=0.3)
         items.append((f, dict(stream="enum-matrix", nops=len(ops), typed=int(ok), flavour=flavour)))
     # 3. chains of 4..12 operators
-    for _ in range(6000 if thorough else 240):
+    for _ in range(3000 if thorough else 240):
         n = rng.randint(4, 12)
         flavour = "scalar" if rng.random() < 0.7 else "matrix"
         r = rng.random()
@@ -333,7 +333,7 @@ def generate(tier, rng):
         tags.update(nops=len(f) // 2, flavour=flavour)
         items.append((f, tags))
     # 4. explicit parentheses in non-default positions
-    for _ in range(6000 if thorough else 240):
+    for _ in range(3000 if thorough else 240):
         flavour = "scalar" if rng.random() < 0.75 else "matrix"
         depth = 1 if rng.random() < 0.6 else 2
         f = gen_formula("bool" if rng.random() < 0.4 else "num", rng.randint(1, 3), depth, rng, flavour)
